@@ -116,14 +116,90 @@ func (t *Term) byteBitmap() (*Term, *byteSet) {
 	return v, t.bm
 }
 
+// An atom restricts one byte variable to a set; a clause is a disjunction of
+// atoms. A literal whose boolean skeleton (and/or/not) over single-byte-variable
+// leaves converts to a few clauses is handled exactly: unit clauses narrow the
+// domains, longer ones are kept and decided by a small complete search.
+type domAtom struct {
+	v *Term
+	s byteSet
+}
+type domClause []domAtom
+
+const maxClauseProduct = 16
+
+// toClauses converts (t, neg) to CNF over byte atoms, or fails.
+func toClauses(t *Term, neg bool) ([]domClause, bool) {
+	if v, bm := t.byteBitmap(); v != nil {
+		s := *bm
+		if neg {
+			s = s.not()
+		}
+		return []domClause{{domAtom{v, s}}}, true
+	}
+	if t.w != 0 {
+		return nil, false
+	}
+	switch t.op {
+	case OpConst:
+		if (t.val != 0) != neg {
+			return nil, true
+		}
+		return []domClause{{}}, true
+	case OpNot:
+		return toClauses(t.a, !neg)
+	case OpAnd, OpOr:
+		ca, ok := toClauses(t.a, neg)
+		if !ok {
+			return nil, false
+		}
+		cb, ok := toClauses(t.b, neg)
+		if !ok {
+			return nil, false
+		}
+		if (t.op == OpAnd) != neg {
+			return append(append([]domClause{}, ca...), cb...), true
+		}
+		if len(ca)*len(cb) > maxClauseProduct {
+			return nil, false
+		}
+		var out []domClause
+		for _, x := range ca {
+			for _, y := range cb {
+				out = append(out, mergeClause(x, y))
+			}
+		}
+		return out, true
+	}
+	return nil, false
+}
+
+func mergeClause(x, y domClause) domClause {
+	out := append(domClause{}, x...)
+outer:
+	for _, a := range y {
+		for k := range out {
+			if out[k].v == a.v {
+				o := out[k].s
+				out[k].s = byteSet{o[0] | a.s[0], o[1] | a.s[1], o[2] | a.s[2], o[3] | a.s[3]}
+				continue outer
+			}
+		}
+		out = append(out, a)
+	}
+	return out
+}
+
 type domState struct {
-	dom   map[*Term]byteSet
-	multi map[*Term]bool
+	dom     map[*Term]byteSet
+	multi   map[*Term]bool
+	clauses []domClause
 }
 
 func (d *domState) reset() {
 	d.dom = map[*Term]byteSet{}
 	d.multi = map[*Term]bool{}
+	d.clauses = d.clauses[:0]
 }
 
 func (d *domState) get(v *Term) byteSet {
@@ -135,12 +211,14 @@ func (d *domState) get(v *Term) byteSet {
 
 // note records a literal pushed onto the path condition.
 func (d *domState) note(t *Term, neg bool) {
-	if v, bm := t.byteBitmap(); v != nil {
-		s := *bm
-		if neg {
-			s = s.not()
+	if cs, ok := toClauses(t, neg); ok {
+		for _, c := range cs {
+			if len(c) == 1 {
+				d.dom[c[0].v] = d.get(c[0].v).and(c[0].s)
+			} else {
+				d.clauses = append(d.clauses, c)
+			}
 		}
-		d.dom[v] = d.get(v).and(s)
 		return
 	}
 	var vs []*Term
@@ -150,23 +228,120 @@ func (d *domState) note(t *Term, neg bool) {
 	}
 }
 
-// fastSide reports whether the literal (t, neg) is feasible: 1 yes (with the
-// value to give the variable), 0 no, -1 unknown (ask the solver).
-func (d *domState) fastSide(t *Term, neg bool) (int, *Term, uint8) {
-	v, bm := t.byteBitmap()
-	if v == nil {
-		return -1, nil, 0
+type domAssign struct {
+	v   *Term
+	val uint8
+}
+
+// solve: is there an assignment within the domains satisfying every clause?
+// Complete backtracking over the clauses (budgeted); returns the narrowed domains.
+func domSolve(dom map[*Term]byteSet, clauses []domClause, budget *int) (map[*Term]byteSet, int) {
+	get := func(v *Term) byteSet {
+		if s, ok := dom[v]; ok {
+			return s
+		}
+		return fullByteSet
 	}
-	s := *bm
-	if neg {
-		s = s.not()
+	for k, c := range clauses {
+		// already satisfied for every value of some atom's domain?
+		sat := false
+		for _, a := range c {
+			dv := get(a.v)
+			out := dv.and(a.s.not())
+			if out.empty() && !dv.empty() {
+				sat = true
+				break
+			}
+		}
+		if sat {
+			continue
+		}
+		rest := clauses[k+1:]
+		for _, a := range c {
+			nd := get(a.v).and(a.s)
+			if nd.empty() {
+				continue
+			}
+			*budget--
+			if *budget < 0 {
+				return nil, -1
+			}
+			d2 := make(map[*Term]byteSet, len(dom)+1)
+			for kk, vv := range dom {
+				d2[kk] = vv
+			}
+			d2[a.v] = nd
+			if r, ok := domSolve(d2, rest, budget); ok == 1 {
+				return r, 1
+			} else if ok < 0 {
+				return nil, -1
+			}
+		}
+		return nil, 0
 	}
-	s = s.and(d.get(v))
-	if s.empty() {
-		return 0, v, 0
+	return dom, 1
+}
+
+// fastSide reports whether the literal (t, neg) is feasible together with the
+// path condition: 1 yes (with the variables to change in the current model),
+// 0 no, -1 unknown (ask the solver).
+func (d *domState) fastSide(t *Term, neg bool, model Model) (int, []domAssign) {
+	cs, ok := toClauses(t, neg)
+	if !ok {
+		return -1, nil
 	}
-	if d.multi[v] {
-		return -1, v, 0
+	dom := make(map[*Term]byteSet, len(d.dom)+2)
+	for k, v := range d.dom {
+		dom[k] = v
 	}
-	return 1, v, s.first()
+	var long []domClause
+	for _, c := range cs {
+		if len(c) == 0 {
+			return 0, nil
+		}
+		if len(c) == 1 {
+			v := c[0].v
+			cur, ok := dom[v]
+			if !ok {
+				cur = fullByteSet
+			}
+			nd := cur.and(c[0].s)
+			if nd.empty() {
+				return 0, nil
+			}
+			dom[v] = nd
+		} else {
+			long = append(long, c)
+		}
+	}
+	all := long
+	if len(d.clauses) > 0 {
+		all = append(append([]domClause{}, d.clauses...), long...)
+	}
+	budget := 4000
+	res, verdict := domSolve(dom, all, &budget)
+	if verdict < 0 {
+		return -1, nil
+	}
+	if verdict == 0 {
+		// the single-variable literals and clauses are implied by the path condition: infeasible
+		return 0, nil
+	}
+	// witness: keep the model's value where allowed, change it otherwise; a change to a
+	// variable that a non-decomposable literal mentions cannot be trusted
+	var out []domAssign
+	for v, s := range res {
+		var cur uint8
+		if v.val < uint64(len(model)) {
+			cur = uint8(model[v.val])
+		}
+		if s.has(cur) {
+			continue
+		}
+		if d.multi[v] {
+			return -1, nil
+		}
+		out = append(out, domAssign{v, s.first()})
+	}
+	return 1, out
 }
